@@ -81,12 +81,12 @@ def make_field(type_name, fld, late=False):
 
 # the two shapes of an allowed-characters range, and the character that stands for class "d" under each: above every
 # allowed character, or in a gap between allowed ones (above the blank and the digits, below the letters)
-ALLOWED = {"range": "32...125", "gaps": "32, 48...57, 97...125"}
-DISALLOWED = {"none": "~", "range": "~", "gaps": "@"}
+ALLOWED = {"range": "32...125", "gaps": "32, 48...57, 97...125", "noblank": "33...125"}
+DISALLOWED = {"none": "~", "range": "~", "gaps": "@", "noblank": "~"}
 
 
 def spell(cell, good_char, restricted="range"):
-    return "".join(" " if c == "b" else (DISALLOWED[restricted] if c == "d" else good_char) for c in cell)
+    return "".join(" " if c == "b" else ("\t" if c == "t" else (DISALLOWED[restricted] if c == "d" else good_char)) for c in cell)
 
 
 def observe(field, fmt, text):
@@ -94,7 +94,7 @@ def observe(field, fmt, text):
     from cutplace import errors
     calls = [0]
     original = field.validated_value
-    hook_input = text.strip() if fmt == "fixed" else text
+    hook_input = text.strip(" ") if fmt == "fixed" else text  # (only blanks are padding)
     measured = None
     if hook_input:
         try:
@@ -215,11 +215,14 @@ def run(tier, report):
     core.require_coverage(result, ["GuardChars", "Strip", "GuardEmpty", "GuardLength", "Value"], "Fields")
     report.add_tlc("Fields: 4 formats x empty flag x %s x 3 shapes of the allowed-characters range x cells <= %d x hook verdict" % (
         ("5 length declarations (+2 fixed widths)", 4) if tier == "quick" else ("11 length declarations (+4 fixed widths)", 6)), result)
-    pinned = core.tlc("MCFields", "Fields_pinned.cfg", expect_violation=True, coverage=False)
-    if pinned.violated != "GuardsHold":
-        raise core.MachineryError("StripBeforeEmptyGuard = FALSE (D5) gave no counterexample")
-    report.notes["expected_counterexamples"] = [{"cfg": "Fields_pinned.cfg", "deviation": "D5 emptiness guard before strip",
-                                                 "violated": pinned.violated}]
+    report.notes["expected_counterexamples"] = []
+    for cfg, deviation in (("Fields_pinned.cfg", "D5 emptiness guard before strip"),
+                           ("Fields_pinned_blank.cfg", "D39 the blanks of an all-blank fixed-width cell are checked against the allowed characters"),
+                           ("Fields_pinned_strip.cfg", "D40 every kind of white space is stripped from fixed-width cells")):
+        pinned = core.tlc("MCFields", cfg, expect_violation=True, coverage=False)
+        if pinned.violated != "GuardsHold":
+            raise core.MachineryError("%s (%s) gave no counterexample" % (cfg, deviation))
+        report.notes["expected_counterexamples"].append({"cfg": cfg, "deviation": deviation, "violated": pinned.violated})
     vectors = result.by_tag("VEC")
     outcomes = core.parallel_map(_job, vectors, chunk=300)
     shapes = {}
@@ -251,7 +254,7 @@ def run(tier, report):
         "the verdict of a type's value hook is measured by calling validated_value in isolation; C03 checks that validated() "
         "composes the guards and that verdict as specified (the hooks themselves are C02)",
         "a blanks-only fixed-width cell longer than the field is not decided by the property text and is not judged",
-        "the blank is always an allowed character",
+        "a tab stands for white space that is no blank; under every allowed-characters range used it is not an allowed character",
     ]
     return report.finish(rule="one case = (format, empty flag, length declaration, allowed characters, cell class sequence, hook "
                               "verdict) from TLC, replayed on the 8 built-in field classes; non-trivial = the cell is empty or "
